@@ -15,6 +15,7 @@ mod eos;
 mod graphs;
 mod hdlc;
 mod runners;
+mod spsc;
 mod rec;
 mod ring;
 mod util;
@@ -70,6 +71,7 @@ fn main() {
     let rep: Report = match cmd.as_str() {
         "c01" => ring::main(&opts, false),
         "c02" => ring::main(&opts, true),
+        "c03" => spsc::main(&opts),
         "c04" => eos::main(&opts),
         "c05" => runners::main(&opts, "C05"),
         "c06" => runners::main(&opts, "C06"),
